@@ -1087,6 +1087,15 @@ def o_field_path(o):
     return o, list(reversed(names))
 
 
+def o_root(o):
+    """strip field/downcast/index/ref/deref/cast/copy projections off an origin"""
+    d = 0
+    while o[0] in ("field", "downcast", "index", "ref", "deref", "cast", "copy") and d < 40:
+        o = o[1]
+        d += 1
+    return o
+
+
 def o_str(o, depth=0):
     if depth > 6:
         return "…"
